@@ -92,6 +92,16 @@ func (p *pipeline) executeStage(parentStageID string, stage stagepkg.Stage) {
 	stageID := uuid.New().String()
 	p.sm.executeStage(parentStageID, stageID, stage)
 
+	defer func() {
+		if r := recover(); r != nil {
+			// stage panics when executes in current goroutine, complete it with err,
+			// else pending stages never reach zero(pipeline cannot be completed).
+			err := errorpkg.Error(r)
+			p.logger.Error("execute query stage panic", logger.Error(err), logger.Stack())
+			p.sm.completeStage(stageID, err)
+		}
+	}()
+
 	stage.Execute(stage.Plan(), func() {
 		// after current stage execute completed, then plan next stages
 		nextStages := stage.NextStages()
